@@ -255,7 +255,7 @@ func c27Scenarios(thorough bool) []driver.Scenario {
 	add := func(p c27Params, bound int) {
 		out = append(out, driver.Scenario{
 			Name:   fmt.Sprintf("c27/script=%s/fault_at=%d/delay_bounded=%v", p.Script, p.FaultAt, p.Delay),
-			Params: p, Cfg: vrt.Config{Horizon: int64(6 * time.Hour), MaxSteps: 5000000, DelayBounded: p.Delay, SelectDeviations: true},
+			Params: p, Cfg: vrt.Config{Horizon: int64(6 * time.Hour), MaxSteps: 5000000, DelayBounded: p.Delay, TimersFirst: p.Delay, SelectDeviations: true},
 			Body: c27Body(p), Check: c27Check(p), Bound: max(bound, 0), Sequential: bound < 0,
 		})
 	}
